@@ -423,6 +423,38 @@ def _loops(ot, body_open):
 _BASELINE = None
 
 
+def _code_only(text):
+    """text with comments and string / char literals blanked"""
+    out = list(text)
+    for t in lex(text):
+        if t.kind in ('str', 'char', 'comment'):
+            for i in range(t.start, t.end):
+                out[i] = ' '
+    return ''.join(out)
+
+
+def novel_vocabulary(cur, base):
+    """Calls, macros and closures that the changed function text uses and the pinned text of the same function does not.
+    A change that only re-combines the function's own vocabulary (operators, constants, names, statement order) leaves this empty;
+    a refactoring through other APIs does not -- and for those the shim contracts may be weaker than the code they replace."""
+    def vocab(t):
+        c = _code_only(t)
+        calls = set(re.findall(r'\b([A-Za-z_][A-Za-z0-9_]*)\s*(?:::\s*<[^>()]*>)?\s*\(', c))
+        macros = set(m + '!' for m in re.findall(r'\b([a-z_][a-z0-9_]*)!\s*[\(\[{]', c))
+        closures = len(re.findall(r'(?:[(,=]\s*|\bmove\s+|\breturn\s+)\|', c))
+        return calls | macros, closures
+    try:
+        v1, c1 = vocab(cur)
+        v0, c0 = vocab(base)
+    except Exception:
+        return []
+    kw = {'if', 'while', 'match', 'for', 'return', 'Some', 'Ok', 'Err', 'None', 'fn', 'loop', 'let', 'in', 'as'}
+    out = sorted(x for x in v1 - v0 if x not in kw)
+    if c1 > c0:
+        out.append('<%d new closure(s)>' % (c1 - c0))
+    return out
+
+
 def alpha_normalise(cur, base):
     """T9.  If `cur` equals `base` token for token except for a consistent, injective renaming of identifiers that are bound
     locally in `cur` (let / closure / for / pattern / parameter bindings), return the list of (cur_name, base_name); else None.
@@ -503,6 +535,7 @@ def weave_fn(src, loc, fc, origins, as_stub=False, canary=None):
             except OSError:
                 _BASELINE = {}
         base = _BASELINE.get(fc.key)
+        novel = novel_vocabulary(ot.s, base) if (base is not None and base != ot.s and not as_stub) else []
         if base is not None and base != ot.s:
             renamed = alpha_normalise(ot.s, base)
             if renamed:
@@ -523,6 +556,8 @@ def weave_fn(src, loc, fc, origins, as_stub=False, canary=None):
     body_rel = loc['body_open'] - loc['start'] - vis
     info = {'file': src.rel, 'lines': [src.line_of(loc['start']), src.line_of(loc['end'] - 1)],
             'sha256': hashlib.sha256(ot.s.encode()).hexdigest(), 'rewrites': [], 'outlined': []}
+    if fc is not None and novel:
+        info['novel_vocabulary'] = novel
     if renamed:
         info['rewrites'].append({'rule': 'T9', 'count': len(renamed), 'from': ', '.join(a for a, b in renamed), 'to': ', '.join(b for a, b in renamed)})
     what = fc.key if fc else '?'
